@@ -60,6 +60,10 @@ CHECKS = {
     technique='TLA+ SimpleClient.tla (threads with program counters at the Event/buffer operations) model-checked by TLC + exhaustive schedule exploration of the real SimpleClient under a baton scheduler, every step re-executed by TLC (SimpleClientGraph.tla)',
     text='The instance\'s connected_event, input_event and input_buffer are replaced by objects that park the thread before each operation; real threads, one runs at a time; every schedule of {application receive()/emit() calls, handler thread arrivals, connection drop / reconnect / final end / give-up} is explored by state (a few hundred abstract states per configuration) and each step is validated against the spec (whole projected state: pcs, buffer, flags, results). Invariants: returned ++ buffer = arrived (order, exactly once, nothing overtaken), DisconnectedError only after the final end, emit waits out a reconnection, no error while an event is available (known finding D9 modelled; the design without it is model-checked).',
     ref='4/C19', note='Trusted: TLC, FakeEio, the baton scheduler (pre-emption at Event/buffer operations, the granularity the property names). AsyncSimpleClient is not yet explored (see DESIGN.md).'),
+ 'C20': dict(
+    technique='TLA+ SrvDisconnectThreads.tla (one pc per thread, labels = manager / transport / handler / environ accesses) model-checked by TLC + exhaustive schedule exploration of the real threaded Server under the baton scheduler, each step re-executed by TLC',
+    text='2-3 real threads run {Server.disconnect(), client DISCONNECT, transport loss, disconnect of the other namespace} on one client; the instance\'s manager methods, eio.send, the disconnect handler and the environ table park the thread before each access; every schedule is explored by abstract state and validated step by step against the spec (membership, pending list, handler runs, packets, thread-local values, results). Invariants: handler exactly once, no thread raises, clean afterwards. The check-then-mark window of the code is the named deviation D7 (known finding); the design with an atomic gate satisfies all invariants (model-checked).',
+    ref='4/C20', note='Trusted: TLC, the baton scheduler (pre-emption at the accesses the property names, not per bytecode), real engine.io sockets.'),
  'C16': dict(
     technique='TLA+ SioServer.tla (sessions config) + exhaustive graph validation with the real engine.io session store',
     text='C16_SessionIsolation: get_session/session() return the declared contents for that client+namespace, never a foreign value; known finding D6 (session survives a namespace-level disconnect) is modelled exactly, the design without it is model-checked.',
